@@ -267,12 +267,27 @@ CHECKS["C13"] = {
               A("sched", "./checks/bsem", "TestC13Sched", overlay=True, gomaxprocs=1, budget={"quick": 120, "thorough": 1800})],
 }
 
+CHECKS["C14"] = {
+    "level": "fault_enumeration",
+    "technique": "deviation-bounded exhaustive fault enumeration (every single loss / duplication / delay on every transaction of hours-long runs, and pairs) of the real client against the real server in virtual time",
+    "rule": "Engine A fault enumeration: real turn.Client <-> real turn.Server on simnet in one synctest bubble per run; server (lifetime, permission, channel) in {(600,300,600),(120,300,600),(600,150,360)} x traffic in "
+            "{idle: one write per peer then only peer probes every 60 s; both directions every 60 s; both every 10 s; 30-write burst to 3 peers (two share an IP) then 40 min idle; a write to a new peer every 7 min} x (faults) "
+            "every single deviation {drop the first k=1..6 transmissions | drop | duplicate | delay-until-next-retransmission the response} on EVERY transaction of the fault-free run (Allocate x2, Refresh, CreatePermission "
+            "new/refresh, ChannelBind per peer, the 438 retries, the closing Refresh 0) over 75 min (quick) / 3 h (thorough); (pairs, 75 min) both deviations on one transaction, thorough also every unordered pair of "
+            "transactions; (close) fault-free runs closed at every 10 s up to 75 min (quick) / every 5 s up to 3 h (thorough) for all 15 combinations. Transmission 7 and its response are never touched and probes are never "
+            "dropped. Oracle: every probe sent while the relayed socket is open arrives exactly once, byte-identical, at the right endpoint and source; no client WARN/ERROR line, no unanswered transaction, no write error; "
+            "after relayConn.Close() + quiescence AllocationCount()==0 and the relay socket is closed; the bubble drains. A class is (part, configuration, traffic, transaction kind - deviation kind) -> outcome.",
+    "parts": [A("faults", "./checks/c14", "TestC14Faults", gomaxprocs=1, budget={"quick": 60, "thorough": 600}),
+              A("pairs", "./checks/c14", "TestC14Pairs", gomaxprocs=1, budget={"quick": 60, "thorough": 1500}),
+              A("close", "./checks/c14", "TestC14Close", gomaxprocs=1, budget={"quick": 60, "thorough": 300})],
+}
+
 ENGINES = [
     {"name": "sched", "path": "/verif/sched + /verif/shim + /verif/instr", "serves_properties": ["C18"],
      "kind_free_text": "Engine B: controlled scheduler over sources instrumented at check time (go build -overlay): stateless DFS over all schedules with at most k preemptions, prefix replay, work stealing between shard processes; also serves the schedule halves of C02, C04, C15, C16 (checks/bsem)"},
     {"name": "enum", "path": "/verif/checks/c10 c11 c17 c20", "serves_properties": ["C03", "C05", "C09", "C10", "C11", "C17", "C20"],
      "kind_free_text": "Engine C: bounded-exhaustive enumeration of inputs / configurations / segmentations of sequential functions against an independent RFC reference"},
-    {"name": "vtx", "path": "/verif/vtx", "serves_properties": ["C01", "C02", "C04", "C06", "C07", "C08", "C12", "C13", "C15", "C16", "C19"],
+    {"name": "vtx", "path": "/verif/vtx", "serves_properties": ["C01", "C02", "C04", "C06", "C07", "C08", "C12", "C13", "C14", "C15", "C16", "C19"],
      "kind_free_text": "Engine A: explicit-state search over event histories of the real turn.Server/turn.Client in virtual time (testing/synctest) over an in-memory network, reference model + probe sweep after every event"},
 ]
 
